@@ -4,7 +4,7 @@
 export GOFLAGS=-mod=mod GOPROXY=off GOSUMDB=off GOTOOLCHAIN=local
 D=$(mktemp -d); trap "rm -rf $D" EXIT
 (cd /verif/harness && cp /repo/go.sum . && go build -tags verif -o $D/coredrive ./cmd/coredrive) || exit 1
-VERIF_SCRATCH=$D timeout 600 $D/coredrive -profile "$1" -n "$2" -ops "$3" -seed "$4" -out $D/out.jsonl || exit 1
+VERIF_SCRATCH=$D timeout 600 $D/coredrive -profile "$1" -n "$2" -ops "$3" -seed "$4" $5 -out $D/out.jsonl || exit 1
 python3 - "$D" <<'PY'
 import json,sys,subprocess,re
 D=sys.argv[1]
